@@ -238,7 +238,9 @@ func runC08(r *Report, rng *rand.Rand, thorough bool) {
 	}
 	gen := func(schema map[string]any) ([]fieldDesc, string, error) {
 		spec, _ := json.Marshal(map[string]any{"openapi": "3.0.3", "info": map[string]any{"title": "c", "version": "1"}, "paths": map[string]any{},
-			"components": map[string]any{"schemas": map[string]any{"T": schema, "Other": map[string]any{"type": "object", "properties": map[string]any{"x": map[string]any{"type": "string"}}}}}})
+			"components": map[string]any{"schemas": map[string]any{"T": schema, "Other": map[string]any{"type": "object", "properties": map[string]any{"x": map[string]any{"type": "string"}}},
+				// a component that opts out of the optional pointer itself
+				"Stamp": map[string]any{"type": "string", "x-go-type-skip-optional-pointer": true}}}})
 		cfg := codegen.Configuration{PackageName: "gen", Generate: codegen.GenerateOptions{Models: true}}
 		cfg.OutputOptions.SkipPrune = true
 		code, err := generate(spec, cfg)
@@ -319,6 +321,33 @@ func runC08(r *Report, rng *rand.Rand, thorough bool) {
 				}
 				return sameExcept(before, after, "B")
 			}},
+			// x-go-type-skip-optional-pointer reaching the member through a reference, through the allOf wrapper that decorates a
+			// reference, and given as false on a format that skips the pointer by itself
+			{"x-go-type-skip-optional-pointer (on the referenced component)", func(p map[string]any) { p["b"] = map[string]any{"$ref": "#/components/schemas/Stamp"} }, func(before, after []fieldDesc, code string) string {
+				f := find(after, "B")
+				if f == nil || f.Type != "Stamp" || jsonTagOf(f.Tag) != "b,omitempty" {
+					return fmt.Sprintf("optional member referring to a component with the extension: %+v", f)
+				}
+				return sameExcept(before, after, "B")
+			}},
+			{"x-go-type-skip-optional-pointer (on an allOf wrapper)", func(p map[string]any) {
+				p["ref"] = map[string]any{"allOf": []any{map[string]any{"$ref": "#/components/schemas/Other"}}, "x-go-type-skip-optional-pointer": true}
+			}, func(before, after []fieldDesc, code string) string {
+				f := find(after, "Ref")
+				if f == nil || f.Type != "Other" || jsonTagOf(f.Tag) != "ref,omitempty" {
+					return fmt.Sprintf("optional allOf-wrapped reference with the extension: %+v", f)
+				}
+				return sameExcept(before, after, "Ref")
+			}},
+			{"x-go-type-skip-optional-pointer: false (format json)", func(p map[string]any) {
+				p["b"] = map[string]any{"type": "string", "format": "json", "x-go-type-skip-optional-pointer": false}
+			}, func(before, after []fieldDesc, code string) string {
+				f := find(after, "B")
+				if f == nil || f.Type != "*json.RawMessage" {
+					return fmt.Sprintf("format json with the extension set to false keeps the pointer: %+v", f)
+				}
+				return sameExcept(before, after, "B")
+			}},
 			{"x-oapi-codegen-extra-tags", func(p map[string]any) {
 				p["b"].(map[string]any)["x-oapi-codegen-extra-tags"] = map[string]any{"db": "bcol", "validate": "min=1"}
 			}, func(before, after []fieldDesc, code string) string {
@@ -377,5 +406,5 @@ func runC08(r *Report, rng *rand.Rand, thorough bool) {
 	fcases.WriteTo(r)
 	tcases.WriteTo(r)
 	r.Exhaustive = true
-	r.Rule = "exhaustive: every cell of required x nullable x readOnly x writeOnly x x-go-type-skip-optional-pointer {absent,true,false} x x-omitempty {absent,true,false} x x-go-json-ignore {absent,true,false} (432 cells) x disable-required-readonly-as-pointer x nullable-type (4 option sets) generated as one struct per option set, every field's type wrapper and json tag read back with go/parser and compared with the model in Coq and, for extension-free cells, with the documented rules; every (type, format) pair over 4 types x 23 formats incl. unknown ones vs the model's table and the documented rows; arrays / maps / free-form objects / $ref; x-go-name (CamelCase, snake_case and lowerCamel values), x-go-type(+import), x-oapi-codegen-extra-tags, x-order, x-deprecated-reason must change exactly their own component (compared on the AST); non-trivial = a cell with an extension or option"
+	r.Rule = "exhaustive: every cell of required x nullable x readOnly x writeOnly x x-go-type-skip-optional-pointer {absent,true,false} x x-omitempty {absent,true,false} x x-go-json-ignore {absent,true,false} (432 cells) x disable-required-readonly-as-pointer x nullable-type (4 option sets) generated as one struct per option set, every field's type wrapper and json tag read back with go/parser and compared with the model in Coq and, for extension-free cells, with the documented rules; every (type, format) pair over 4 types x 23 formats incl. unknown ones vs the model's table and the documented rows; arrays / maps / free-form objects / $ref; x-go-name (CamelCase, snake_case and lowerCamel values), x-go-type-skip-optional-pointer through a reference / an allOf wrapper / as false on format json, x-go-type(+import), x-oapi-codegen-extra-tags, x-order, x-deprecated-reason must change exactly their own component (compared on the AST); non-trivial = a cell with an extension or option"
 }
